@@ -1,9 +1,132 @@
+/-
+  Oracle.C10 — to-be-closed variables.  Input lines (from harness/cmd/c10):
+      <variant> <prog> <handlers> = <impl log>
+  prog:      T<id> | N | Z | M<n> | B(seq) | L<n>(seq) | K | G<k> | R | E<n> | P(seq) | C(seq)
+             seq = prog,prog,…  (possibly empty)
+  handlers:  `-` or id:e[n|s],…  — the handler of value id raises user error e
+             (always / only when its 2nd argument is nil (n) / only when it is an error (s))
+  Output:    <Spec.Tbc.run log>;<runVM (compile p) log>;<clpush/cltrunc skeleton of compile p>
+  events:    c<id>:<err>  m<n>  p:<err>  k:<err> (coroutine.close result)     err = n | u<k> | x
+  variant `coclose`: Spec.Tbc.runCo / runVMCo (the body is a coroutine closed at its first Y)
+-/
 import Oracle.Proto
+import GoluaVerif.Spec.Tbc
+import GoluaVerif.Model.TbcVM
 namespace Oracle.C10
+open GoluaVerif.Spec.Tbc GoluaVerif.Model.Tbc
 
-/-- placeholder: the oracle driver for C10 is not built yet -/
+
+def parseNat (cs : List Char) : Option (Nat × List Char) :=
+  let ds := cs.takeWhile Char.isDigit
+  if ds.isEmpty then none else some (ds.foldl (fun a c => a * 10 + (c.toNat - '0'.toNat)) 0, cs.drop ds.length)
+
+def seqOf : List Prog → Prog
+  | [] => .skip
+  | [p] => p
+  | p :: ps => .seq p (seqOf ps)
+
+mutual
+partial def parseProg : List Char → Option (Prog × List Char)
+  | 'T' :: cs => (parseNat cs).map fun (n, r) => (.tbc (.obj n), r)
+  | 'N' :: cs => some (.tbc .nilv, cs)
+  | 'Z' :: cs => some (.tbc .bad, cs)
+  | 'M' :: cs => (parseNat cs).map fun (n, r) => (.mark n, r)
+  | 'K' :: cs => some (.brk, cs)
+  | 'G' :: cs => (parseNat cs).map fun (n, r) => (.gotoOut n, r)
+  | 'R' :: cs => some (.ret, cs)
+  | 'Y' :: cs => some (.yield, cs)
+  | 'E' :: cs => (parseNat cs).map fun (n, r) => (.err n, r)
+  | 'B' :: '(' :: cs => (parseSeq cs []).map fun (ps, r) => (.block (seqOf ps), r)
+  | 'P' :: '(' :: cs => (parseSeq cs []).map fun (ps, r) => (.pcall (seqOf ps), r)
+  | 'C' :: '(' :: cs => (parseSeq cs []).map fun (ps, r) => (.call (seqOf ps), r)
+  | 'L' :: cs => match parseNat cs with
+    | some (n, '(' :: r) => (parseSeq r []).map fun (ps, r2) => (.loop n (seqOf ps), r2)
+    | _ => none
+  | _ => none
+partial def parseSeq (cs : List Char) (acc : List Prog) : Option (List Prog × List Char) :=
+  match cs with
+  | ')' :: r => some (acc.reverse, r)
+  | ',' :: r => parseSeq r acc
+  | _ => match parseProg cs with
+    | some (p, r) => parseSeq r (p :: acc)
+    | none => none
+end
+
+def parseTop (s : String) : Option Prog :=
+  match parseSeq (s.toList ++ [')']) [] with
+  | some (ps, []) => some (seqOf ps)
+  | _ => none
+
+/-- handler table entries: (id, error, mode) with mode 0 always, 1 only if errArg = nil, 2 only if errArg ≠ nil -/
+def parseHandlers (s : String) : Option (List (Nat × Nat × Nat)) :=
+  if s == "-" then some [] else
+  (s.splitOn ",").mapM fun item =>
+    match item.splitOn ":" with
+    | [a, b] =>
+      let (num, mode) :=
+        if b.endsWith "n" then (b.dropEnd 1 |>.toString, 1)
+        else if b.endsWith "s" then (b.dropEnd 1 |>.toString, 2)
+        else (b, 0)
+      match a.toNat?, num.toNat? with
+      | some i, some e => some (i, e, mode)
+      | _, _ => none
+    | _ => none
+
+def mkHandlers (tab : List (Nat × Nat × Nat)) : Handlers := fun id arg =>
+  match tab.find? (fun t => t.1 == id) with
+  | some (_, e, mode) =>
+    if mode == 0 || (mode == 1 && arg.isNone) || (mode == 2 && arg.isSome) then some (.user e) else none
+  | none => none
+
+def showErr : Option Err → String
+  | none => "n"
+  | some (.user k) => "u" ++ toString k
+  | some .notClosable => "x"
+
+def showEv : Ev → String
+  | .close id e => "c" ++ toString id ++ ":" ++ showErr e
+  | .mark n => "m" ++ toString n
+  | .caught r => "p:" ++ showErr r
+  | .closed r => "k:" ++ showErr r
+
+def showLog (l : List Ev) : String := if l.isEmpty then "-" else ",".intercalate (l.map showEv)
+
+/-- the clpush / cltrunc skeleton of a code unit in program order; nested functions are listed after
+    the unit that contains them, in order of appearance (the order of the constant table) -/
+partial def skeleton (c : Code) : List String :=
+  let rec go (c : Code) (acc : List String × List Code) : List String × List Code :=
+    match c with
+    | .skip | .mark _ | .err _ | .yield => acc
+    | .brk | .jump _ => (acc.1 ++ ["jump"], acc.2)
+    | .ret => (acc.1 ++ ["ret"], acc.2)
+    | .seq a b => go b (go a acc)
+    | .push _ => (acc.1 ++ ["push"], acc.2)
+    | .trunc h => (acc.1 ++ ["trunc" ++ toString h], acc.2)
+    | .block c => go c acc
+    | .loop _ c => go c acc
+    | .pcall c => (acc.1, acc.2 ++ [c])
+    | .call c => (acc.1, acc.2 ++ [c])
+  let (own, subs) := go c ([], [])
+  ["["] ++ own ++ (subs.map skeleton).flatten ++ ["]"]
+
+def handle (line : String) : String :=
+  match line.splitOn " " with
+  | variant :: prog :: hs :: _ =>
+    match parseTop prog, parseHandlers hs with
+    | some p, some tab =>
+      let h := mkHandlers tab
+      let co := variant == "coclose"
+      let spec := showLog (if co then runCo h p else run h p)
+      match compileChunk p with
+      | some c => spec ++ ";" ++ showLog (if co then runVMCo h c else runVM h c) ++ ";" ++ ",".intercalate (["[", "ret"] ++ skeleton c ++ ["]"])
+      | none => spec ++ ";compile-error;-"
+    | _, _ => "bad-line"
+  | _ => "bad-line"
+
 def main (_args : List String) : IO UInt32 := do
-  IO.eprintln "oracle mode c10: not built"
-  return 2
+  let stdin ← IO.getStdin
+  let stdout ← IO.getStdout
+  forEachLine stdin fun line => stdout.putStrLn (handle line)
+  return 0
 
 end Oracle.C10
